@@ -107,6 +107,9 @@ func history(c *explore.Ctx, cf cfg) (viol []verdict, trace []string, outcome st
 		// new owners assign fresh rendezvous info so that old and new header differ in more than GUID and key
 		o.RvInfo = [][]protocol.RvInstruction{{{Variable: protocol.RVDns, Value: mustCBOR("rv-" + o.Name + ".example")}, {Variable: protocol.RVProtocol, Value: mustCBOR(uint8(1))}}}
 	}
+	// the second owner in the rotation assigns NO rendezvous info at all (an empty list is a legal choice): the device
+	// then holds directives from before and must still adopt exactly what the owner chose
+	owners[1].RvInfo = [][]protocol.RvInstruction{}
 	w.Mfg.RvInfo = [][]protocol.RvInstruction{{{Variable: protocol.RVDns, Value: mustCBOR("rv0.example")}}}
 	// ---- DI ----
 	var cancel context.CancelFunc
@@ -343,7 +346,7 @@ func main() {
 		cfgs = append(cfgs, cfg{k("rsapkcs3072"), protocol.X509KeyEnc, kex.ASYMKEX3072Suite, kex.A192GcmCipher, false, 3}, cfg{k("rsapss2048"), protocol.X5ChainKeyEnc, kex.DHKEXid14Suite, kex.CoseAes128CbcCipher, false, 3},
 			cfg{k("rsa2048restr"), protocol.X509KeyEnc, kex.ECDH256Suite, kex.CoseAes256CtrCipher, false, 3})
 	}
-	r.Rule("histories DI -> k x (hand-over to the next owner by extension/resale, credential written to and re-read from its blob encoding, TO2) explored with the deviation-bounded explorer: every HTTP exchange of DI and TO2 is a choice point {pass, request lost, response lost after the server processed it, response replaced by an FDO error, context cancelled} every store call of the serving side is a choice point {pass, fail}, and before every TO2 exchange the owner's rendezvous policy callback may start returning other instructions (policy updated mid-session); bound 1 is complete for every configuration (thorough: bound 2 for two configurations). Oracles in every execution: after each successful DI/TO2 the stored voucher verifies against the credential the device now holds (header MAC under the device secret, manufacturer-key hash, GUID, rendezvous info - owners assign new rendezvous info -, certificate hash) and the next hand-over + TO2 works; with reuse nothing changes; a TO2 that fails before the owner produced Done2 leaves the owner's voucher store byte-identical, returns no credential, and an honest retry succeeds; a lost Done2 is counted as the inherent commit window. distinct = distinct (outcome, fault trace).")
+	r.Rule("histories DI -> k x (hand-over to the next owner by extension/resale, credential written to and re-read from its blob encoding, TO2) explored with the deviation-bounded explorer: every HTTP exchange of DI and TO2 is a choice point {pass, request lost, response lost after the server processed it, response replaced by an FDO error, context cancelled} every store call of the serving side is a choice point {pass, fail}, and before every TO2 exchange the owner's rendezvous policy callback may start returning other instructions (policy updated mid-session); bound 1 is complete for every configuration (thorough: bound 2 for two configurations). Oracles in every execution: after each successful DI/TO2 the stored voucher verifies against the credential the device now holds (header MAC under the device secret, manufacturer-key hash, GUID, rendezvous info - owners assign new rendezvous info, every second owner an empty list -, certificate hash) and the next hand-over + TO2 works; with reuse nothing changes; a TO2 that fails before the owner produced Done2 leaves the owner's voucher store byte-identical, returns no credential, and an honest retry succeeds; a lost Done2 is counted as the inherent commit window. distinct = distinct (outcome, fault trace).")
 	var wg sync.WaitGroup
 	sem := make(chan struct{}, 16)
 	for i, cf := range cfgs {
